@@ -36,10 +36,10 @@ ARRAY_DUNDERS = ['__add__', '__sub__', '__mul__', '__floordiv__', '__truediv__',
 INTS = ['1', '0', '-1', '-9', '7', '8', '9', 'L', 'L + 1', '-L - 1', '2 ** 31', '2 ** 64', '-2 ** 63', 'True']
 SMALL_INTS = ['2', '0', '-1', '1', 'L', 'L + 1', '3', '64']
 BITLIKE = ["'0b1'", "''", "'0x0f'", 's', "'0b' + '1' * (L + 1)", "b'\\x00'", "[1, 0]", "bitarray.bitarray('101')", "bitstring.Bits(bin='10')", "'0b2'", "'0xg'", "'ue=3'", "'uint:=3'",
-           "bytearray(b'a')", "memoryview(b'ab')", "(x for x in [1, 0, 1])", "io.BytesIO(b'ab')", "True", "bitstring.BitStream('0x1', pos=2)", "array.array('B', [7])", "'hex:8=a'", "range(3)", "IMM"]
+           "bytearray(b'a')", "memoryview(b'ab')", "(x for x in [1, 0, 1])", "io.BytesIO(b'ab')", "True", "bitstring.BitStream('0x1', pos=2)", "array.array('B', [7])", "'hex:8=a'", "range(3)", "IMM", "'*(u8=1), 2*(u8=2)'", "'2*(0b1), (0b0)'"]
 FORMATS = ["'u1'", "''", "','", "'0x'", "'0b2'", "'uint'", "'uint:=3'", "'ue:3'", "'3*'", "'2*('", "')'", "'hex:3=a'", "'float:7=1'", "'=5'", "'u8='", "'0x1g'", "'>'", "'<z'", "'bits:-1'", "'0*u8'",
            "'2*(2*(u1))'", "3", "-1", "0", "'bin'", "'hex'", "'bits, ue'", "'ue, bits'", "'bits, bits'", "['u1', 1]", "[-1]", "[1, 'x']", "'pad:2'", "'bool'", "'bytes'", "'float'", "'e4m3mxfp'",
-           "'u:n'", "'2*u1, bits'", "'<h'", "'>10Q'", "bitstring.Dtype('u2')", "'int:0'", "'u0'", "'hex:-4'", "'ue'", "'se'", "'uie'", "'sie'", "'ue, ue'", "'se, bits'"]
+           "'u:n'", "'2*u1, bits'", "'<h'", "'>10Q'", "bitstring.Dtype('u2')", "'int:0'", "'u0'", "'hex:-4'", "'ue'", "'se'", "'uie'", "'sie'", "'ue, ue'", "'se, bits'", "'*(u8), 2*(u8)'", "'x*(u1), 3*(u1)'", "'2*(u1), *(u1)'", "'(u1), 2*(u1)'", "'2*(u1)), (u1'", "'2*3*(u1)'", "'-2*(u1)'", "'2 * ( u1 )'"]
 BOOLS = ['None', 'True', 'False', '0', '1']
 POSITIONS = ['0', '-1', 'L', '-L - 1', '[0]', '[0, -1]', '[L]', '(x for x in [0])', 'range(L)', 'range(L + 1)', 'range(-1, -L - 1, -1)', 'range(0, L, 2)', '[]', 'None', '(0, L)', '[True]', '[2 ** 64]', 'range(0)']
 STREAMS_IO = ['io.StringIO()']
@@ -190,6 +190,15 @@ def witness(bs, ns):
     return None
 
 
+def timed(ns, src):
+    """run_src under the per-call watchdog; a call that does not return within 10 s is the observation ('exc', 'HANG')."""
+    try:
+        with core.watchdog(10):
+            return run_src(ns, src)
+    except core.Hang:
+        return ('exc', 'HANG')
+
+
 def invariants(bs, obj, snap, cls):
     """Post-conditions on one object; returns a problem string or None."""
     try:
@@ -201,8 +210,6 @@ def invariants(bs, obj, snap, cls):
                 return f"pos {obj.pos} outside [0, {len(obj)}]"
         if cls in ('Bits', 'ConstBitStream') and snap is not None and (b, hash(obj)) != snap:
             return f"immutable object changed from {snap[0][:24]} to {b[:24]}"
-        if not isinstance(obj._bitstore.immutable, bool):
-            return "store flag corrupted"
     except core.Hang:
         raise
     except Exception as e:  # noqa: BLE001
@@ -218,6 +225,8 @@ def judge(acc, op, src, pre, got, problem, group=''):
     if bad_exc or problem:
         kind = 'excclass' if bad_exc else 'invariant'
         what = got[1] if bad_exc else problem.split(':')[0][:40]
+        if got == ('exc', 'HANG'):
+            pre = ["import signal", "signal.alarm(20)      # the call below does not return: the alarm ends the replay with a non-zero exit"] + list(pre)
         lines = pre + ["try:", f"    {src}", "except (ValueError, IndexError, TypeError, bitstring.Error, OSError" + (", EOFError" if 'fromfile' in src else "") + "):", "    pass"]
         lines += POST_SRC
         acc.violation(op, kind, dict(call=src, setup=pre[-1][:100], lsb0=core.get_options()[0], exc=got[1] if got[0] == 'exc' else None, problem=problem, group=f"{group}|{what}"),
@@ -281,23 +290,20 @@ def methods(bs, acc, ctx, shard):
         if is_prop:
             s, snap = fresh()
             ns = namespace(bs, dict(s=s, L=len(s)))
-            with core.watchdog(10):
-                got = run_src(ns, f"s.{name}")
+            got = timed(ns, f"s.{name}")
             got = (got[0], got[1] if got[0] == 'exc' else None)
             judge(acc, 'property', f"s.{name}", pre, got, invariants(bs, s, snap, cls), group=name)
             if cls in ('BitArray', 'BitStream') and isinstance(attr, property) and attr.fset is not None:
                 for v in prop_values(bs, name):
                     s, snap = fresh()
                     ns = namespace(bs, dict(s=s, L=len(s)))
-                    with core.watchdog(10):
-                        got = run_src(ns, f"s.{name} = {v}")
+                    got = timed(ns, f"s.{name} = {v}")
                     got = (got[0], got[1] if got[0] == 'exc' else None)
                     judge(acc, 'property', f"s.{name} = {v}", pre, got, invariants(bs, s, snap, cls) or witness(bs, ns), group=name + '=')
                     if stname == 'nine' and got[0] == 'ok':
                         # what was assigned must not be reachable through later changes to s
                         for b2 in CORE_MUT:
-                            with core.watchdog(10):
-                                g2 = run_src(ns, b2)
+                            g2 = timed(ns, b2)
                             judge(acc, 'call', b2, pre + [f"s.{name} = {v}"], (g2[0], g2[1] if g2[0] == 'exc' else None), invariants(bs, ns['s'], None, cls) or witness(bs, ns), group='seq|' + name + '=')
             continue
         fn = getattr(klass, name)
@@ -343,10 +349,13 @@ def methods(bs, acc, ctx, shard):
             if stname == 'nine' and problem is None and all(a == d for a, d in zip(args[1:], [pool(name, p[0])[0] for p in params][1:])):
                 battery = CORE_BATTERY + (CORE_STREAM if 'Stream' in cls else []) + (CORE_MUT if cls in ('BitArray', 'BitStream') else [])
                 for b2 in battery:
-                    with core.watchdog(10):
-                        g2 = run_src(ns, b2)
-                        if g2[0] == 'ok' and hasattr(g2[1], '__next__'):
-                            list(itertools.islice(g2[1], 40))
+                    try:
+                        with core.watchdog(10):
+                            g2 = run_src(ns, b2)
+                            if g2[0] == 'ok' and hasattr(g2[1], '__next__'):
+                                list(itertools.islice(g2[1], 40))
+                    except core.Hang:
+                        g2 = ('exc', 'HANG')
                     judge(acc, 'call', b2, pre + ["try:", f"    {src}", "except Exception:", "    pass"], (g2[0], g2[1] if g2[0] == 'exc' else None), invariants(bs, ns['s'], None if cls in ('BitArray', 'BitStream') else snap, cls) or witness(bs, ns), group='seq|' + name)
                     if not q:
                         g3 = run_src(ns, battery[(len(b2) + len(src)) % len(battery)])
@@ -410,8 +419,7 @@ def ctors(bs, acc, ctx, shard):
                         continue
                     src = f"bitstring.{cls}({kw}={v}{ln})" if kw != 'auto' else f"bitstring.{cls}({v}{ln})"
                     ns = namespace(bs, dict(L=8, s=bs.Bits('0b1')))
-                    with core.watchdog(10):
-                        got = run_src(ns, src)
+                    got = timed(ns, src)
                     problem = None
                     if got[0] == 'ok':
                         problem = invariants(bs, got[1], None, cls)
@@ -422,8 +430,7 @@ def ctors(bs, acc, ctx, shard):
             for extra in ('', ', pos=1', ', pos=-1', ', pos=100') if 'Stream' in cls else ('',):
                 src = f"bitstring.{cls}({v}{extra})"
                 ns = namespace(bs, dict(L=8, s=bs.Bits('0b1')))
-                with core.watchdog(10):
-                    got = run_src(ns, src)
+                got = timed(ns, src)
                 problem = invariants(bs, got[1], None, cls) if got[0] == 'ok' else None
                 judge(acc, 'ctor', f"r = {src}", pre, (got[0], got[1] if got[0] == 'exc' else None), problem, group='ctor-auto')
     acc.sample(dict(event="Cls(kw=value, length=.., offset=..) for 39 keywords x 25 values x 12 length/offset forms; Cls(auto) for every pool value"))
@@ -500,8 +507,7 @@ def arrays(bs, acc, shard):
             for tr in BYNAME['trailing_bits'][:3]:
                 src = f"bitstring.Array({dt}, {init}, {tr})"
                 ns = namespace(bs, dict(s=bs.Bits('0b1')))
-                with core.watchdog(10):
-                    got = run_src(ns, src)
+                got = timed(ns, src)
                 judge(acc, 'array', f"r = {src}", ["import bitstring, bitarray, array, io", f"bitstring.options.lsb0 = {lsb0}", "s = bitstring.Bits('0b1')"], (got[0], got[1] if got[0] == 'exc' else None),
                       arr_inv(bs, got[1]) if got[0] == 'ok' else None, group='A.ctor')
     acc.sample(dict(event="every public attribute and operator of Array on 5 roots with <= 1 / <= 2 adversarial arguments; Array(dtype, initializer, trailing_bits) for all pool values"))
@@ -538,16 +544,14 @@ def dtype_pack(bs, acc, shard):
                 if ln == '' and sc == '' or True:
                     src = f"bitstring.Dtype({tok}{ln}{sc})"
                     ns = namespace(bs, dict(s=bs.Bits('0b1'), L=8))
-                    with core.watchdog(10):
-                        got = run_src(ns, src)
+                    got = timed(ns, src)
                     judge(acc, 'dtype', f"d = {src}", pre, (got[0], got[1] if got[0] == 'exc' else None), None, group='Dtype()')
                     if got[0] == 'ok':
                         d = got[1]
                         for m in ("d.build(1)", "d.build('a')", "d.build(-1)", "d.build(None)", "d.build(1.5)", "d.parse('0b1')", "d.parse('0x01')", "d.parse(3)", "d.parse('')", "str(d)", "repr(d)", "d == d",
                                   "d.name, d.length, d.bitlength, d.scale, d.variable_length, d.return_type, d.is_signed, d.bits_per_item", "hash(d)", "d.set_fn, d.get_fn, d.read_fn"):
                             ns2 = namespace(bs, dict(d=d, s=bs.Bits('0b1'), L=8))
-                            with core.watchdog(10):
-                                g = run_src(ns2, m)
+                            g = timed(ns2, m)
                             judge(acc, 'dtype', m, pre + [f"d = {src}"], (g[0], g[1] if g[0] == 'exc' else None), None, group='Dtype.' + m.split('(')[0])
     vals = ['', ', 1', ', 1, 2', ", 'a'", ', -1', ', 1.5', ", b'a'", ', s', ', 255', ", '0b1', 1"]
     kws = ['', ', n=8', ', n=-1', ", n='a'", ', a=1', ', uint=3', ', n=0']
@@ -557,8 +561,7 @@ def dtype_pack(bs, acc, shard):
             for kw in (kws if v in ('', ', 1') else kws[:2]):
                 src = f"bitstring.pack({f}{v}{kw})"
                 ns = namespace(bs, dict(s=bs.Bits('0b1'), L=8))
-                with core.watchdog(10):
-                    got = run_src(ns, src)
+                got = timed(ns, src)
                 problem = None
                 if got[0] == 'ok':
                     problem = invariants(bs, got[1], None, 'BitStream') if isinstance(got[1], bs.Bits) else 'pack returned a non-bitstring'
